@@ -344,9 +344,9 @@ void Executor::op_copy(const Op& op, TaskCtx& t) {
     if (why.empty() && a.hasBasis()) { std::vector<int> r1, c1, r2, c2; a.getBasis(r1, c1); b.getBasis(r2, c2); if (r1 != r2 || c1 != c2) why = "basis"; }
     if (why.empty() && a.hasSol()) {
       std::vector<double> x1, x2; bool p1 = a.getPrimal(x1), p2 = b.getPrimal(x2);
-      if (p1 != p2 || (p1 && (x1.size() != x2.size() || memcmp(x1.data(), x2.data(), x1.size() * 8)))) why = "primal";
+      if (p1 != p2 || (p1 && (x1.size() != x2.size() || (x1.size() && memcmp(x1.data(), x2.data(), x1.size() * 8))))) why = "primal";
       std::vector<double> y1, y2; bool d1 = a.getDual(y1), d2 = b.getDual(y2);
-      if (why.empty() && (d1 != d2 || (d1 && (y1.size() != y2.size() || memcmp(y1.data(), y2.data(), y1.size() * 8))))) why = "dual";
+      if (why.empty() && (d1 != d2 || (d1 && (y1.size() != y2.size() || (y1.size() && memcmp(y1.data(), y2.data(), y1.size() * 8)))))) why = "dual";
       if (why.empty() && memcmp_d(a.objValue(), b.objValue())) why = "objective value";
     }
     if (why.empty() && a.tolerancesPtr() == b.tolerancesPtr()) { /* shared state is judged by its observable effect, not by the pointer */ count("copy_shares_tolerances"); }
